@@ -2003,6 +2003,21 @@ WITNESSES = [
     ("dotf:tail-args", ["s::{:[x;.f(x-1;y+x);y]}", "s(4;0)", "fib::{:[x;.f(x-1;z;y+z);y]}", "fib(10;0;1)",
                         "rot::{:[x;.f(x-1;z;y);y,z]}", "rot(3;1;2)", "s@[4 0]", "q::s(;0)", "q(4)"],
      {1: 10, 3: 55, 5: [2, 1], 6: 10, 8: 10}),
+    # a declaration followed by exactly ONE expression, an outer variable of the same name, every call form
+    ("locals:one-expression-body",
+     ["t::100", "u::200", "sq::{[t];t::x*x}", "sq(3)", "t", "sq@4", "t", "sq'[1 2 3]", "t", "ad::{[u];u::x+y}", "ad(1;2)", "u",
+      "p::ad(;5)", "p(1)", "u", "ad/[1 2 3]", "u", "{[t];t::x*x}(5)", "t", "{[t;u];u::x}(7)", "u", "t",
+      "pk::{[t];t}", "pk()", "fl::{[t];boom(t::x)}", "fl(9)", "t", "fl@8", "t", "fl'[1 2]", "t",
+      "nest::{[t];t::sq(x)+1}", "nest(2)", "t"],
+     {3: 9, 4: 100, 5: 16, 6: 100, 7: [1, 4, 9], 8: 100, 10: 3, 11: 200, 13: 6, 14: 200, 15: 6, 16: 200, 17: 25, 18: 100,
+      19: 7, 20: 200, 21: 100, 26: 100, 28: 100, 30: 100, 32: 5, 33: 100}),
+    # function literals whose parameters occur only in callee position, passed directly as values
+    ("subst:callee-only-literal",
+     ["apply::{x(y)}", "dbl::{x*2}", "sb::{x-y}", "at3::{x(3)}", "at3(dbl)", "apply(at3;dbl)", "apply({x(3)};dbl)",
+      "apply({x(10;3)};sb)", "ap2::{x(0;y)}", "ap2({y(2)};dbl)", "pk2::{:[x;{x(1)};{x(2)}]}", "apply(pk2(0);dbl)",
+      "apply(pk2(1);dbl)", "apply(:[0;{x(5)};{x(6)}];dbl)", "ea::{x'y}", "ea({x(3)};[1 2])", "{x(4)}(dbl)",
+      "lst::{[r];r::{x(7)};apply(r;dbl)}", "lst()", "w3::{x(1;2;3)}", "tri::{(100*x)+(10*y)+z}", "apply({x(1;2;3)};tri)"],
+     {4: 6, 5: 6, 6: 6, 7: 7, 9: 4, 11: 4, 12: 2, 13: 12, 16: 8, 18: 14, 21: 123}),
     ("cond:monad-operand", ["-:[1;5;6]", "#:[0;[1];[2 2]]", "cf::{-:[x;y;z]}", "cf(0;5;6)"], {0: -5, 1: 2, 3: -6}),
     ("subst:definition-rejected", ["dbl::{x*2}", "g::{x,y}", "f::{dbl(:[x;5;6])}", "f(0)", "h::{g([1 2];x)}", "h(3)"],
      {3: 12, 5: [1, 2, 3]}),
